@@ -93,6 +93,12 @@ def digest(walk, spec_out_iter=None):
                 if a <= pos < b2:
                     return st, t
             return bounds[-1][2], bounds[-1][3]
+        c.packet_ends = set()
+        c.cum = {}
+        tot = 0
+        for st, t, b in c.chunks:
+            tot += len(b)
+            c.cum[st] = tot
         pos = 0
         for k, (first, body) in enumerate(pkts):
             from walk import enc_vli
@@ -103,6 +109,7 @@ def digest(walk, spec_out_iter=None):
             c.packets.append({"view": segs[k] if k < len(segs) else None, "desc": desc, "kind": desc.get("kind"), "pid": desc.get("pid"),
                               "first_step": fs, "t_first": ft, "last_step": ls, "t_last": lt})
             pos += ln
+            c.packet_ends.add(pos)
     return d
 
 
@@ -240,6 +247,23 @@ def mon_C01(walk, d):
                         out.append(("reason-code-count", f"operation {idx} asked for {op['n']} entries, result has {len(codes)}", step))
                 if kind == "pubrec" and len(parts) > 3 and int(parts[3]) < 128:
                     out.append(("pubrec-success-completion", f"operation {idx} completed by a successful PUBREC", step))
+    # no silent drop: every tracked operation sits in some container from which a later event resolves it
+    for i, (o, note) in enumerate(zip(walk.out, walk.notes)):
+        if note.get("kind") == "snap":
+            f, _ = resp_fields(o)
+            if not f.get("ops"):
+                continue
+            located = set()
+            for key in ("userq", "resubq", "highq", "pwcops"):
+                located |= set(x for x in f.get(key, "").split("+") if x)
+            for key in ("ppub", "pnon"):
+                located |= set(x.split(":")[1] for x in f.get(key, "").split("+") if x)
+            if f.get("cur") not in (None, "none"):
+                located.add(f["cur"])
+            for op in f["ops"].split("+"):
+                if op not in located:
+                    out.append(("operation-in-no-container", f"operation {op} is tracked but sits in no queue, table or current slot: nothing can ever resolve it", i))
+                    break
     # after the final reset everything accepted has been resolved exactly once and nothing stays tracked
     if walk.notes and walk.notes[-1].get("kind") == "snap" and not walk.dead:
         for idx in d["ops"]:
@@ -332,6 +356,33 @@ def last_success_step(d, c):
     return s
 
 
+def lost_ops(walk):
+    """(step, op id, kind) for tracked operations that sit in no queue, table or current slot"""
+    res = []
+    for i, (o, note) in enumerate(zip(walk.out, walk.notes)):
+        if note.get("kind") != "snap":
+            continue
+        f, _ = resp_fields(o)
+        if not f.get("ops"):
+            continue
+        located = set()
+        for key in ("userq", "resubq", "highq", "pwcops"):
+            located |= set(x for x in f.get(key, "").split("+") if x)
+        for key in ("ppub", "pnon"):
+            located |= set(x.split(":")[1] for x in f.get(key, "").split("+") if x)
+        if f.get("cur") not in (None, "none"):
+            located.add(f["cur"])
+        kinds = {}
+        for tok in o.split(" | ")[0].split(" "):
+            if tok.startswith("op="):
+                parts = tok[3:].split(":")
+                kinds[parts[0]] = parts[1]
+        for op in f["ops"].split("+"):
+            if op not in located:
+                res.append((i, op, kinds.get(op, "?")))
+    return res
+
+
 def mon_C04(walk, d):
     """QoS 1/2 sender protocol per tagged publish"""
     real_out = []
@@ -419,6 +470,10 @@ def mon_C04(walk, d):
                             h["pubrec"] = True
         if c.connack is not None and not sp:
             pass
+    for step, op, kind in lost_ops(walk):
+        if kind in ("publish1", "publish2"):
+            real_out.append(("publish-abandoned", f"QoS>0 publish operation {op} is tracked but sits in no queue or table: its PUBLISH/PUBREL will never be (re)sent", step))
+            break
     return real_out
 
 
@@ -658,7 +713,7 @@ def mon_C17(walk, d):
 
 
 def mon_C18(walk, d):
-    out = []
+    out = mon_C18_exact(walk, d)
     for idx, lst in d["completions"].items():
         if idx not in d["ops"]:
             continue
@@ -676,6 +731,63 @@ def mon_C18(walk, d):
                 out.append(("timeout-before-write", f"operation {idx} timed out without having been fully written on this connection", step))
             elif t < min(writes) + op["timeout"]:
                 out.append(("timeout-early", f"operation {idx} timed out at {t} ms, written at {min(writes)} ms, timeout {op['timeout']} ms", step))
+    return out
+
+
+def mon_C18_exact(walk, d):
+    """an operation with ack timeout T, fully written at W on this connection and still unresolved, fails with
+    AckTimeout at the first successful service call at or after W + T"""
+    out = []
+    completed_at = {idx: lst[0][0] for idx, lst in d["completions"].items()}
+    for c in d["conns"]:
+        if c.connack_step is None:
+            continue
+        end = c.close_step if c.close_step is not None else len(walk.script)
+        pid_tag = {}
+        written = {}     # tag -> earliest full-write time on this connection
+        stream_pos = 0
+        chunk_iter = iter(c.chunks)
+        for p in c.packets:
+            tg = tag_of(p)
+            if tg is not None and p.get("pid") is not None:
+                pid_tag[p["pid"]] = tg
+        for i in range(c.connack_step, end):
+            note = walk.notes[i]
+            if note.get("kind") != "svc":
+                continue
+            f, _ = resp_fields(walk.out[i])
+            if f.get("res") != "ok":
+                break
+            # packets fully written up to and including this step
+            sofar = max([v for st, v in c.cum.items() if st <= i], default=0)
+            partial = sofar != 0 and sofar not in c.packet_ends
+            for p in c.packets:
+                if p["last_step"] <= i:
+                    tg = tag_of(p)
+                    if tg is None and p["kind"] == "pubrel":
+                        tg = pid_tag.get(p["pid"])
+                    if tg is not None and tg in d["ops"] and tg not in written:
+                        written[tg] = p["t_last"]
+            if partial:
+                continue
+            for tg, w in written.items():
+                op = d["ops"][tg]
+                if op["timeout"] is None or (op["kind"] == "pub" and op["qos"] == 0):
+                    continue
+                if tg in completed_at and completed_at[tg] <= i:
+                    continue
+                if op["kind"] == "pub" and op["qos"] == 2:
+                    # while the PUBREL of this operation is waiting to be / being written the timeout is deferred
+                    # until that packet is complete (it cannot be abandoned half way without corrupting the stream)
+                    pids = {p["pid"] for p in c.packets if tag_of(p) == tg}
+                    rec = any(walk.notes[j].get("ack", {}).get("kind") == "pubrec" and walk.notes[j]["ack"].get("pid") in pids
+                              and resp_fields(walk.out[j])[0].get("res") == "ok" for j in range(c.connack_step, i))
+                    rel_done = any(p["kind"] == "pubrel" and p["pid"] in pids and p["last_step"] <= i for p in c.packets)
+                    if rec and not rel_done:
+                        continue
+                if note["t"] >= w + op["timeout"]:
+                    out.append(("timeout-missed", f"operation {tg} written at {w} ms with ack timeout {op['timeout']} ms is still unresolved after a service call at {note['t']} ms", i))
+                    return out
     return out
 
 
